@@ -158,6 +158,22 @@ def auth_case(item):
             for i in range(0, len(plain) - 7):
                 if plain[i:i + 8] in v:
                     return 'unwrap failed with %#x but output %s holds plaintext octets [%d,%d)' % (res['ret'], name, i, i + 8)
+    # generic form of "nothing unauthenticated is released": what a FAILING unwrap leaves in its outputs must not depend on the
+    # presented ciphertext.  Second execution with every octet of the ciphertext-carrying input altered (it must fail too):
+    # all outputs must coincide (both untouched, or both zeroed, ...)
+    for cf in ('src1', 'src', 'token', 'epki', 'apdu', 'cmd', 'resp', 'cert', 'der'):
+        v = case.get(cf)
+        if isinstance(v, (bytes, bytearray)) and len(v) >= 8:
+            c2 = dict(case); c2[cf] = bytes(x ^ 0x3C for x in v)
+            res2 = common.run_fn(L, fname, c2, fill=0x00)
+            if res2['ret'] != 0:
+                for name, a in res.items():
+                    b = res2.get(name)
+                    if isinstance(a, bytes) and isinstance(b, bytes) and len(a) == len(b) and a != b:
+                        d = [i for i in range(len(a)) if a[i] != b[i]]
+                        return ('unwrap failed with %#x, and again with %#x for another %s, but output %s differs between the two failing calls in %d octets '
+                                '(first at %d): what is left there depends on the unauthenticated input' % (res['ret'], res2['ret'], cf, name, len(d), d[0]))
+            break
     # the unauthenticated decryption of what was presented must not be released either (belt-kwp: the wide-block decryption of
     # the token; for the AEAD modes it differs from the true plaintext only around the altered bit, which the scan above covers)
     if fname == 'beltKWPUnwrap':
